@@ -211,10 +211,14 @@ theorem uq_unackFinish {s : State} (h : UQ s) (now : Nat) : UQ (unackFinish s no
     · exact hc
   · uq_auto [uq_finalizeReceive]
 
+theorem uq_unackComplete {s : State} (h : UQ s) (now : Nat) : UQ (unackComplete s now) := by
+  simp only [unackComplete, unackCheckMissing]
+  repeat' split
+  all_goals uq_auto [uq_unackFinish]
+
 theorem uq_unackEofNoError {s : State} (h : UQ s) (e : Eof) (now : Nat) : UQ (unackEofNoError s e now) := by
   simp only [unackEofNoError]
-  repeat' split
-  all_goals uq_auto [uq_checkFileSize, uq_unackFinish]
+  uq_auto [uq_unackComplete, uq_checkFileSize]
 
 theorem uq_unackEof {s : State} (h : UQ s) (e : Eof) (now : Nat) : UQ (unackEof s e now) := by
   simp only [unackEof]
@@ -446,17 +450,25 @@ theorem completeOk_unackFinish (s : State) (now : Nat) (hn : s.fileSize.isSome =
   · exact completeOk_frame (completeOk_finalizeReceive s now hn) rfl rfl rfl rfl
   · exact completeOk_frame (completeOk_finalizeReceive s now hn) rfl rfl rfl rfl
 
-theorem completeOk_unackEofNoError {s : State} (h : s.delivery ≠ .Complete) (e : Eof) (now : Nat) :
-    CompleteOk (unackEofNoError s e now) := by
-  simp only [unackEofNoError]
+theorem completeOk_unackComplete {s : State} (h : s.delivery ≠ .Complete) (hn : s.fileSize.isSome = true) (now : Nat) :
+    CompleteOk (unackComplete s now) := by
+  simp only [unackComplete, unackCheckMissing]
   repeat' split
   all_goals first
     | (apply completeOk_of_ne
-       simp only [delivery_handleFault, delivery_checkFileSize]
+       simp only [delivery_handleFault]
        exact h)
     | (apply completeOk_unackFinish
        simp only [fileSize_handleFault]
-       rfl)
+       exact hn)
+    | exact completeOk_of_ne h
+
+theorem completeOk_unackEofNoError {s : State} (h : s.delivery ≠ .Complete) (e : Eof) (now : Nat) :
+    CompleteOk (unackEofNoError s e now) := by
+  simp only [unackEofNoError]
+  apply completeOk_unackComplete
+  · simp only [delivery_checkFileSize]; exact h
+  · rfl
 
 theorem completeOk_unackEof {s : State} (h : s.delivery ≠ .Complete) (e : Eof) (now : Nat) :
     CompleteOk (unackEof s e now) := by
